@@ -145,6 +145,16 @@ impl DBM {
     pub fn load_appointment(&self, uuid: UUID) -> (r: Option<ExtendedAppointment>)
         ensures match r { Some(a) => self.appts.contains_key(uuid) && row_of(a) == self.appts[uuid], None => !self.appts.contains_key(uuid) },
     { unimplemented!() }
+    // SELECT a.* FROM appointments a LEFT JOIN trackers t ON a.UUID=t.UUID WHERE t.UUID IS NULL [AND a.locator=?]: the appointments
+    // still being watched (no tracker yet), optionally only those with the given locator
+//@ transcribes teos/src/dbm.rs :: impl DBM :: fn load_appointments :: sha=043e74756c0b6f3b
+    #[verifier::external_body]
+    pub fn load_appointments(&self, locator: Option<Locator>) -> (r: HashMap<UUID, ExtendedAppointment>)
+        ensures
+            forall|u: UUID| #[trigger] r@.contains_key(u) <==> self.appts.contains_key(u) && !self.trackers.contains_key(u)
+                && (locator matches Some(l) ==> self.appts[u].locator == l),
+            forall|u: UUID| #[trigger] r@.contains_key(u) ==> row_of(r@[u]) == self.appts[u],
+    { unimplemented!() }
 //@ transcribes teos/src/dbm.rs :: impl DBM :: fn appointment_exists :: sha=984555af7ae9d0c3
     #[verifier::external_body]
     pub fn appointment_exists(&self, uuid: UUID) -> (r: bool)
